@@ -27,6 +27,10 @@ def _should_set_millisecond(cr, marking_type):
             return False
     if getattr(cr, 'precision', None) == Precision.MILLISECOND:
         return True
+    if getattr(cr, 'microsecond', 0):
+        # Written with a fraction, so it will be read back (from text) with
+        # millisecond precision; use the same precision from the start.
+        return True
     return False
 
 
